@@ -191,7 +191,7 @@ static void x86_p3(BaseEmitter* em, CodeHolder& code, unsigned k, ErrAcc& E) {
 }
 
 // P4: compiler function with more live values than registers (spills), a stack slot, a call, local+global constants
-static void x86_func_spill(x86::Compiler& cc, unsigned k, ErrAcc& E, Label* self_out = nullptr, const Label* callee = nullptr) {
+static void x86_func_spill(x86::Compiler& cc, unsigned k, ErrAcc& E, Label* self_out = nullptr, const Label* callee = nullptr, ConstPoolScope gscope = ConstPoolScope::kGlobal) {
   FuncNode* fn = cc.add_func(FuncSignature::build<uint32_t, uint32_t, uint32_t, void*>());
   if (!fn) { E(Error::kOutOfMemory); return; }
   if (self_out) *self_out = fn->label();
@@ -205,7 +205,7 @@ static void x86_func_spill(x86::Compiler& cc, unsigned k, ErrAcc& E, Label* self
   fn->set_arg(2, p);
   x86::Mem stk = cc.new_stack(64, 16, "stk");
   x86::Mem c0 = cc.new_int32_const(ConstPoolScope::kLocal, int32_t(1000 + k));
-  x86::Mem c1 = cc.new_double_const(ConstPoolScope::kGlobal, 1.5 + k);
+  x86::Mem c1 = cc.new_double_const(gscope, 1.5 + k);
   for (unsigned i = 2; i < NV; i++) { E(cc.mov(v[i], v[i & 1])); E(cc.add(v[i], int(i * 3 + k))); }
   Label lp = cc.new_label();
   E(cc.bind(lp));
@@ -273,13 +273,13 @@ static void x86_p5(BaseEmitter* em, CodeHolder&, unsigned k, ErrAcc& E) {
   x86_func_jtab(*static_cast<x86::Compiler*>(em), k, E);
 }
 
-// P6: one compiler reused for several functions before a single finalize (second calls the first through its label)
-static void x86_p6(BaseEmitter* em, CodeHolder&, unsigned k, ErrAcc& E) {
+// P6: one compiler reused for several functions before a single finalize (the third calls the first through its
+// label).  part = 0: all three; part = 1..3: only that function (the fresh run compiles each with its own Compiler)
+static void x86_p6(BaseEmitter* em, CodeHolder&, unsigned k, ErrAcc& E, int part, Label& first) {
   x86::Compiler& cc = *static_cast<x86::Compiler*>(em);
-  Label first;
-  x86_func_spill(cc, k, E, &first, nullptr);
-  x86_func_jtab(cc, k + 1, E);
-  x86_func_spill(cc, k + 2, E, nullptr, &first);
+  if (part == 0 || part == 1) x86_func_spill(cc, k, E, &first, nullptr, ConstPoolScope::kLocal);
+  if (part == 0 || part == 2) x86_func_jtab(cc, k + 1, E);
+  if (part == 0 || part == 3) x86_func_spill(cc, k + 2, E, nullptr, &first, ConstPoolScope::kLocal);
 }
 
 // ---- AArch64 ------------------------------------------------------------------------------------------------
@@ -404,7 +404,7 @@ static void a64_p3(BaseEmitter* em, CodeHolder& code, unsigned k, ErrAcc& E) {
   b->remove_nodes(r0, r1);
 }
 
-static void a64_func_spill(a64::Compiler& cc, unsigned k, ErrAcc& E, Label* self_out = nullptr, const Label* callee = nullptr) {
+static void a64_func_spill(a64::Compiler& cc, unsigned k, ErrAcc& E, Label* self_out = nullptr, const Label* callee = nullptr, ConstPoolScope gscope = ConstPoolScope::kGlobal) {
   FuncNode* fn = cc.add_func(FuncSignature::build<uint32_t, uint32_t, uint32_t, void*>());
   if (!fn) { E(Error::kOutOfMemory); return; }
   if (self_out) *self_out = fn->label();
@@ -419,7 +419,7 @@ static void a64_func_spill(a64::Compiler& cc, unsigned k, ErrAcc& E, Label* self
   a64::Mem stk = cc.new_stack(64, 16, "stk");
   a64::Mem c0 = cc.new_int32_const(ConstPoolScope::kLocal, int32_t(1000 + k));
   double dv = 1.5 + k;
-  a64::Mem c1 = cc.new_const(ConstPoolScope::kGlobal, &dv, 8);
+  a64::Mem c1 = cc.new_const(gscope, &dv, 8);
   for (unsigned i = 2; i < NV; i++) { E(cc.add(v[i], v[i & 1], int(i * 3 + k))); }
   Label lp = cc.new_label();
   E(cc.bind(lp));
@@ -494,16 +494,17 @@ static void a64_func_jtab(a64::Compiler& cc, unsigned k, ErrAcc& E) {
 static void a64_p5(BaseEmitter* em, CodeHolder&, unsigned k, ErrAcc& E) {
   a64_func_jtab(*static_cast<a64::Compiler*>(em), k, E);
 }
-static void a64_p6(BaseEmitter* em, CodeHolder&, unsigned k, ErrAcc& E) {
+static void a64_p6(BaseEmitter* em, CodeHolder&, unsigned k, ErrAcc& E, int part, Label& first) {
   a64::Compiler& cc = *static_cast<a64::Compiler*>(em);
-  Label first;
-  a64_func_spill(cc, k, E, &first, nullptr);
-  a64_func_jtab(cc, k + 1, E);
-  a64_func_spill(cc, k + 2, E, nullptr, &first);
+  if (part == 0 || part == 1) a64_func_spill(cc, k, E, &first, nullptr, ConstPoolScope::kLocal);
+  if (part == 0 || part == 2) a64_func_jtab(cc, k + 1, E);
+  if (part == 0 || part == 3) a64_func_spill(cc, k + 2, E, nullptr, &first, ConstPoolScope::kLocal);
 }
 
-static void emit_program(Arch arch, BaseEmitter* em, CodeHolder& code, int prog, ErrAcc& E) {
+static void emit_program(Arch arch, BaseEmitter* em, CodeHolder& code, int prog, ErrAcc& E, int part = 0, Label* first = nullptr) {
   unsigned k = unsigned(prog);
+  Label first_local;
+  if (!first) first = &first_local;
   if (arch == Arch::kX64) {
     switch (prog) {
       case 1: x86_p1(em, code, k, E); break;
@@ -511,7 +512,7 @@ static void emit_program(Arch arch, BaseEmitter* em, CodeHolder& code, int prog,
       case 3: x86_p3(em, code, k, E); break;
       case 4: x86_p4(em, code, k, E); break;
       case 5: x86_p5(em, code, k, E); break;
-      default: x86_p6(em, code, k, E); break;
+      default: x86_p6(em, code, k, E, part, *first); break;
     }
   }
   else {
@@ -521,7 +522,7 @@ static void emit_program(Arch arch, BaseEmitter* em, CodeHolder& code, int prog,
       case 3: a64_p3(em, code, k, E); break;
       case 4: a64_p4(em, code, k, E); break;
       case 5: a64_p5(em, code, k, E); break;
-      default: a64_p6(em, code, k, E); break;
+      default: a64_p6(em, code, k, E, part, *first); break;
     }
   }
 }
@@ -958,6 +959,18 @@ struct Exec {
     E(c.init(env(), kBase));
     for (auto& kp : seq) {
       if (kp.first < 0) { E(seal(c)); sealed = true; continue; }
+      if (kp.second == 6) {
+        // "reusing one compiler for many functions": fresh objects = one new Compiler per function
+        Label first;
+        for (int part = 1; part <= 3; part++) {
+          BaseEmitter* e = new_emitter(cfg.arch, kCompiler, false);
+          E(c.attach(e));
+          emit_program(cfg.arch, e, c, 6, E, part, &first);
+          E(e->finalize());
+          delete e;
+        }
+        continue;
+      }
       BaseEmitter* e = new_emitter(cfg.arch, kp.first, false);
       E(c.attach(e));
       E(generate(cfg.arch, e, kp.first, c, kp.second));
